@@ -1425,6 +1425,58 @@ pub fn c12_check(case: &Case, rng: &mut Rng, threads: usize, reps: usize, calls_
             }
         }
     }
+    // from thread-local destructors: "in which thread" includes a thread that is shutting down. One guard is registered
+    // before the library was first used in that thread and one after, so that whatever per-thread state the library keeps
+    // has already been destroyed for one of them, whichever order the runtime uses.
+    if reps > 0 && rng.below(8) == 0 {
+        use std::sync::mpsc;
+        struct RunAtThreadExit {
+            a: MultiPolygon<f64>,
+            b: MultiPolygon<f64>,
+            n: usize,
+            tx: mpsc::Sender<Vec<Option<Vec<u64>>>>,
+        }
+        impl Drop for RunAtThreadExit {
+            fn drop(&mut self) {
+                let mut out = Vec::new();
+                for op in OPS {
+                    let (a, b, n) = (&self.a, &self.b, self.n);
+                    out.push(guarded(n, || a.boolean(b, lib_op(op))).ok().map(|r| bits_of(&r)));
+                }
+                let _ = self.tx.send(out);
+            }
+        }
+        thread_local! {
+            static EARLY: std::cell::RefCell<Option<RunAtThreadExit>> = const { std::cell::RefCell::new(None) };
+            static LATE: std::cell::RefCell<Option<RunAtThreadExit>> = const { std::cell::RefCell::new(None) };
+        }
+        let (tx, rx) = mpsc::channel();
+        let (ta, tb) = (ga.clone(), gb.clone());
+        let h = std::thread::spawn(move || {
+            EARLY.with(|s| *s.borrow_mut() = Some(RunAtThreadExit { a: ta.clone(), b: tb.clone(), n, tx: tx.clone() }));
+            let _ = guarded(n, || ta.boolean(&tb, lib_op(Op::Union)));
+            LATE.with(|s| *s.borrow_mut() = Some(RunAtThreadExit { a: ta.clone(), b: tb.clone(), n, tx }));
+        });
+        let _ = h.join();
+        let mut got = 0;
+        while let Ok(results) = rx.recv_timeout(std::time::Duration::from_secs(60)) {
+            got += 1;
+            *counts.entry("calls-from-thread-local-destructors".into()).or_insert(0) += 4;
+            for (oi, r) in results.iter().enumerate() {
+                match r {
+                    Some(bits) if *bits == reference[oi] => {}
+                    Some(_) => return Err(("determinism".into(), format!("{} called from a thread-local destructor returned a different result", OPS[oi].name()))),
+                    None => return Err(("determinism".into(), format!("{} called from a thread-local destructor (thread shutting down) failed although the same call succeeds elsewhere", OPS[oi].name()))),
+                }
+            }
+            if got == 2 {
+                break;
+            }
+        }
+        if got != 2 {
+            return Err(("harness".into(), format!("only {} of the 2 thread-exit guards reported", got)));
+        }
+    }
     // concurrently from several threads on shared operands; history of (thread, call, input hash, output hash)
     if threads > 0 {
         let ga = Arc::new(ga);
@@ -1628,7 +1680,13 @@ pub fn c12_worker(ctx: &mut Ctx) {
             continue;
         }
         if let Err((sym, detail)) = res {
-            ctx.violation(&sym, &detail, boolean_replay("C12", &case, None, false, Pairing::MM, json!({"threads": threads})));
+            if sym == "harness" {
+                // the monitor's own plumbing failed (a reference thread died, a guard did not report): inconclusive, not a violation
+                ctx.notes.push(format!("HARNESS-ERROR {}", detail));
+                ctx.cnt("harness_errors", 1);
+            } else {
+                ctx.violation(&sym, &detail, boolean_replay("C12", &case, None, false, Pairing::MM, json!({"threads": threads})));
+            }
         }
         ctx.note_nontrivial(case_hash(&case, ""));
         ctx.end();
